@@ -5,7 +5,7 @@ ID = "C08"
 FAMILY = "sha"
 RULE = ("mode 1: message lengths concentrated on the padding boundaries (0,1,55,56,57,63,64,65,119,120,127,128,...) "
         "fed in a random split of update calls (empty updates included; all split points for short messages in "
-        "thorough); mode 2: HMAC with keys of 0,1,32,63,64,65,131 bytes; mode 3: verify with the correct tag, 31/33 "
+        "thorough); mode 2: HMAC with keys of 0,1,32,63,64,65,131 bytes, half of them followed at once by the same data under a key one bit away and under the first key again; mode 3: verify with the correct tag, 31/33 "
         "bytes, every single-bit flip, several tag bytes changed so that the differences cancel under + / xor. Oracle: python hashlib/hmac (independent third implementation). "
         "non-trivial = every case; distinct = distinct implementation outputs")
 ASSUMPTIONS = ["messages shorter than 2^61 bytes for agreement with FIPS proper (the theorem itself needs no bound)"]
@@ -56,6 +56,12 @@ def generate(rng, tier):
             key = [rng.randrange(256) for _ in range(rng.choice([0, 1, 20, 32, 63, 64, 65, 100, 131]))]
             data = [rng.randrange(256) for _ in range(rng.choice(LENS))]
             cases.append({"ints": [2] + lp(key) + lp(data), "tag": "hmac"})
+            if key and rng.random() < 0.5:
+                # straight afterwards in the same process: the same data under a key one bit away (same length, long common
+                # prefix), then the first key again
+                k2 = list(key); k2[rng.choice([0, min(8, len(key) - 1), len(key) - 1, rng.randrange(len(key))])] ^= 1 << rng.randrange(8)
+                cases.append({"ints": [2] + lp(k2) + lp(data), "tag": "hmac-related-key"})
+                cases.append({"ints": [2] + lp(key) + lp(data), "tag": "hmac-related-key"})
         else:
             key = [rng.randrange(256) for _ in range(rng.choice([0, 32, 64, 65, 131]))]
             data = [rng.randrange(256) for _ in range(rng.choice([0, 1, 55, 64, 100]))]
